@@ -83,6 +83,17 @@ def resFDump (v : VT) (bil : Bool) (w h dw dh : Int) (m : M32 Float) : String :=
     (fun _ _ => joinC ((chans v).map (fun _ => showSrc v v.sentinel))) dw.toNat dh.toNat
   " ".intercalate (rows.map (" ".intercalate ·))
 
+/-- the same with a matrix3x2<float>: binary32 transform, point<float> sample points -/
+def resGDump (v : VT) (bil : Bool) (w h dw dh : Int) (m : M32 Float32) : String :=
+  let castG (a : Float32) : Int := if v.isF then f2i (Float.round (a.toFloat * 256.0)) else castRoundF32 a
+  let rows := resample (P := String) (K := Float32)
+    (fun p =>
+      if bil then ((chans v).mapM (fun c => (bilinearF32 w h (v.src c) p.1 p.2).map castG)).map joinC
+      else (nearestF32 w h p.1 p.2).map (fun cxy => joinC ((chans v).map (fun c => showSrc v (v.src c cxy.1 cxy.2)))))
+    (fun xy => m.apply (Float32.ofInt xy.1, Float32.ofInt xy.2))
+    (fun _ _ => joinC ((chans v).map (fun _ => showSrc v v.sentinel))) dw.toNat dh.toNat
+  " ".intercalate (rows.map (" ".intercalate ·))
+
 /-- dst dump of resize_view -/
 def rszDump (v : VT) (bil : Bool) (w h dw dh : Int) : String :=
   resFDump v bil w h dw dh (M32.resize (Float.ofInt w) (Float.ofInt h) (Float.ofInt dw) (Float.ofInt dh) (Float.sin (-0.0)))
@@ -130,6 +141,13 @@ def model (line : String) : String :=
       match mOf fs with
       | some m => let x := resFDump v (s == "b") w h dw dh m; x ++ " | " ++ x
       | none => "bad-op"
+    | _, _, _ => "bad-op"
+  | ["resg", vt, s, w, h, dw, dh, a, b, c, d, e, f] =>
+    match VT.parse vt, ints [w, h, dw, dh], [a, b, c, d, e, f].mapM String.toNat? with
+    | some v, some [w, h, dw, dh], some [a, b, c, d, e, f] =>
+      let g (n : Nat) : Float32 := Float32.ofBits n.toUInt32
+      let x := resGDump v (s == "b") w h dw dh ⟨g a, g b, g c, g d, g e, g f⟩
+      x ++ " | " ++ x
     | _, _, _ => "bad-op"
   | "mmul" :: rest =>
     match rest.mapM fOfBits with
@@ -225,9 +243,31 @@ def judgeTap (w h nx ny D : Int) (tok : String) : Option String :=
 
 def closeQ (a b tol : Rat) : Bool := absQ (a - b) ≤ tol
 
+/-- resample_pixels with a floating point matrix: the library loop must equal the direct per-pixel loop
+    `sample(src, transform(map,(x,y)))` (same floating type), every pixel untouched or within the source's range -/
+def judgeResFloat (vt w h dw dh obs : String) : String :=
+  let fail (s : String) := "fail " ++ s
+
+    match VT.parse vt, ints [w, h, dw, dh] with
+    | some v, some [w, h, dw, dh] =>
+      match obs.splitOn " | " with
+      | [l, r] =>
+        if words l ≠ words r then fail "resample-loop" else
+        let toks := words l
+        if toks.length ≠ (dw * dh).toNat then fail "shape" else
+        let sent := joinC ((chans v).map (fun _ => showSrc v v.sentinel))
+        let bad := toks.any (fun t => t != sent && match parseC t with
+          | some vs => (chans v).zip vs |>.any (fun (c, x) =>
+              let all := (irange h.toNat).flatMap (fun y => (irange w.toNat).map (fun xx => showSrc v (v.src c xx y)))
+              !(all.any (· ≤ x) && all.any (· ≥ x)))
+          | none => true)
+        if bad then fail "convex" else "ok"
+      | _ => fail "shape"
+    | _, _ => fail "bad-op"
+
 def judge (op obs : String) : String :=
   let fail (s : String) := "fail " ++ s
-  if obs.startsWith "assert" || obs.startsWith "ub:" || obs.startsWith "crash" || obs.startsWith "timeout" then
+  if obs.startsWith "assert" || obs.startsWith "ub:" || obs.startsWith "crash" || obs.startsWith "timeout" || obs.startsWith "harness-gave-up" then
     fail ("aborted-" ++ (obs.take 60).toString) else
   match words op with
   | [k, vt, _, w, h, D, ny, nx0, n, step] =>
@@ -294,23 +334,8 @@ def judge (op obs : String) : String :=
         | some e => fail e | none => "ok"
       | _ => fail "shape"
     | _, _ => fail "bad-op"
-  | ["resf", vt, _, w, h, dw, dh, _, _, _, _, _, _] =>
-    match VT.parse vt, ints [w, h, dw, dh] with
-    | some v, some [w, h, dw, dh] =>
-      match obs.splitOn " | " with
-      | [l, r] =>
-        if words l ≠ words r then fail "resample-loop" else
-        let toks := words l
-        if toks.length ≠ (dw * dh).toNat then fail "shape" else
-        let sent := joinC ((chans v).map (fun _ => showSrc v v.sentinel))
-        let bad := toks.any (fun t => t != sent && match parseC t with
-          | some vs => (chans v).zip vs |>.any (fun (c, x) =>
-              let all := (irange h.toNat).flatMap (fun y => (irange w.toNat).map (fun xx => showSrc v (v.src c xx y)))
-              !(all.any (· ≤ x) && all.any (· ≥ x)))
-          | none => true)
-        if bad then fail "convex" else "ok"
-      | _ => fail "shape"
-    | _, _ => fail "bad-op"
+  | ["resf", vt, _, w, h, dw, dh, _, _, _, _, _, _] => judgeResFloat vt w h dw dh obs
+  | ["resg", vt, _, w, h, dw, dh, _, _, _, _, _, _] => judgeResFloat vt w h dw dh obs
   | ["rsz", vt, _, w, h, dw, dh] =>
     match VT.parse vt, ints [w, h, dw, dh] with
     | some v, some [w, h, dw, dh] =>
